@@ -112,7 +112,7 @@ impl Prop for C14 {
         for p in ["left-end", "right-end", "interior-knot", "just-above-knot", "just-below-knot", "midpoint", "random"] {
             v.push(format!("point:{}", p));
         }
-        for s in ["repeated-interior-knot", "no-interior-knots", "m>=k", "m=k-1", "outside-support", "array-form", "python-layer", "dual-abscissa", "matrix-form", "scale:tiny-domain", "scale:huge-domain"] {
+        for s in ["repeated-interior-knot", "no-interior-knots", "m>=k", "m=k-1", "outside-support", "array-form", "python-layer", "dual-abscissa", "dual-abscissa:curved", "matrix-form", "scale:tiny-domain", "scale:huge-domain"] {
             v.push(s.to_string());
         }
         v
@@ -301,8 +301,32 @@ impl Prop for C14 {
             for (x, pcls) in pts.iter().take(6) {
                 let xd = Dual::new(*x, vec!["x".to_string()]);
                 let xd2 = Dual2::new(*x, vec!["x".to_string()]);
+                // ... and an abscissa that is itself a curved function of its variable: X' = a, X'' = 2h
+                let (a1, h1) = (rng.real(), rng.real());
+                let xc = Dual2::try_new(*x, vec!["x".to_string()], vec![a1], vec![h1]).unwrap();
                 for i in 0..n {
                     for m in 0..=k {
+                        {
+                            let d0 = if m == 0 { bsplev_single_f64(x, i, &k, &t, None) } else { bspldnev_single_f64(x, i, &k, &t, m, None) };
+                            let d1 = bspldnev_single_f64(x, i, &k, &t, m + 1, None);
+                            let d2 = bspldnev_single_f64(x, i, &k, &t, m + 2, None);
+                            if let Caught::Ok(c) = guarded(|| rateslib::splines::bspldnev_single_dual2(&xc, i, &k, &t, m, None)) {
+                                ctx.eval(1);
+                                ctx.asserted(1);
+                                ctx.class("dual-abscissa:curved");
+                                let g = c.gradient1(vec!["x".to_string()])[0];
+                                let hh = c.gradient2(vec!["x".to_string()])[[0, 0]];
+                                let want_h = d2 * a1 * a1 + d1 * 2.0 * h1;
+                                let sc = (d2 * a1 * a1).abs() + (d1 * 2.0 * h1).abs();
+                                if !(same(c.real(), d0) && (g - d1 * a1).abs() <= 8.0 * f64::EPSILON * (d1 * a1).abs() + 1e-300 && (hh - want_h).abs() <= 16.0 * f64::EPSILON * sc + 1e-300) {
+                                    ctx.violation(
+                                        &format!("C14|dual-abscissa|curved|{}|m={}", pcls, m.min(3)),
+                                        json!({"case": case(*x, i, m), "point_class": pcls, "abscissa (X', X''/2)": [a1, h1], "Dual2 (real, d/dx, d2/dx2)": [c.real(), g, hh], "expected": [d0, d1 * a1, want_h]}),
+                                    );
+                                    return;
+                                }
+                            }
+                        }
                         let r = guarded(|| (rateslib::splines::bspldnev_single_dual(&xd, i, &k, &t, m, None), rateslib::splines::bspldnev_single_dual2(&xd2, i, &k, &t, m, None)));
                         ctx.eval(2);
                         ctx.asserted(2);
